@@ -106,8 +106,8 @@ class C09(F.PropCheck):
     pid = 'C09'; gen_groups = ['RsConsts']; prop_file = 'Properties_C09'
     IN = {'CFG': 0, 'SET': 1, 'CB': 2, 'POKE': 3}
     OUT = {0: 'ST', 1: 'REPORT'}
-    quick_cases = 1500; thorough_cases = 1000          # thorough: 1000 cases through the framework + 44 batches of 500 (extra_quick)
-    thorough_batches = 44; batch_size = 500
+    quick_cases = 1500; thorough_cases = 1000          # thorough: 1000 cases through the framework + 30 batches of 500 (extra_quick)
+    thorough_batches = 30; batch_size = 500
     trusted_extra = ['C09 driver harness/drv/c09.c: real supla_esp_gpio_init, rs_timer_cb, move_position, calibrate, get_current_position/_tilt, '
                      'set_relay; output pins written directly (SET), callback called directly at scripted times (own os_timer disarmed)',
                      'extraction: ExtrOCamlFloats + ExtrOCamlInt63, linked against coq-core.kernel (Float64, Uint63); host x86-64 SSE2 double arithmetic '
